@@ -15,6 +15,12 @@
        BuildSegment over NewRecordBatchFromBytes(batch) for each batch; the footer CRC
        field zeroed (the harness checks it against crc32c itself).
 
+   CSpec batch raw
+       [raw] = the bytes franz-go's kmsg encoder produced for the batch [batch] (an encoder
+       independent of the repository); the spec encoder lib/Kafka.v [enc_batch], to which
+       the C07 round-trip theorems are stated, must produce the same bytes (CRC field
+       zeroed on both sides: CRC-32C is abstract in the proofs).
+
    [check_case] runs the model (fixed-code variant) on the same input and compares. *)
 From KS Require Import lib.Base lib.Varint lib.Outcome lib.Kafka model.Decoders.
 Open Scope Z_scope.
@@ -30,7 +36,8 @@ Inductive dobs :=
 
 Inductive case :=
 | CDecode (k : dkind) (input : bytes) (cutoff : Z) (o : dobs)
-| CBuild (interval created : Z) (batches : list bytes) (ok : bool) (seg idx : bytes).
+| CBuild (interval created : Z) (batches : list bytes) (ok : bool) (seg idx : bytes)
+| CSpec (b : kbatch) (raw : bytes).
 
 Definition obytes_eqb := opt_eqb bytes_eqb.
 Definition hdr_eqb (a b : bytes * option bytes) : bool := bytes_eqb (fst a) (fst b) && obytes_eqb (snd a) (snd b).
@@ -80,4 +87,5 @@ Definition check_case (c : case) : bool :=
       | None => negb ok
       | Some a => ok && bytes_eqb (zero_footer_crc (a_segment a)) seg && bytes_eqb (a_index a) idx
       end
+  | CSpec b raw => bytes_eqb (zero_crc (enc_batch crc0 b)) (zero_crc raw)
   end.
